@@ -203,9 +203,11 @@ class CppEmitter:
             body.append("  default: break; }")
             body.append("printf(\"CB %d called too often\\n\"); abort();" % n)
         f = self.fresh("fn")
-        pre.append("auto %s_cnt = std::make_shared<int>(0); std::shared_ptr<DropLog> %s_log(new DropLog{%d});" % (f, f, n))
+        # the invocation counter is the callable's own by-value state: Rust must keep calling the one std::function it was given
+        # (a glue layer that copies the callable per call would restart at #0); the drop log rides along in a shared_ptr
+        pre.append("std::shared_ptr<DropLog> %s_log(new DropLog{%d});" % (f, n))
         sig = "%s(%s)" % (ret_c, ", ".join(self.cpp_ty(a) for a in t[1]))
-        pre.append("std::function<%s> %s = [cnt = %s_cnt, lg = %s_log](%s) -> %s {\n      %s\n    };" % (sig, f, f, f, params, ret_c, "\n      ".join(body)))
+        pre.append("std::function<%s> %s = [own_cnt = int(0), lg = %s_log](%s) mutable -> %s {\n      int* cnt = &own_cnt;\n      %s\n    };" % (sig, f, f, params, ret_c, "\n      ".join(body)))
         pre.append("%s_log.reset();" % f)
         return "std::move(%s)" % f
 
